@@ -165,7 +165,7 @@ func instanceSigs(st *state.Store) map[svcKey]string {
 
 // txnRenames: the command is a transaction that writes one instance twice, under two names / kinds /
 // destinations (a re-registration that the stores before and after the command do not show).
-func txnRenames(data []byte) bool {
+func txnRenames(data []byte, before map[svcKey]string) bool {
 	if len(data) == 0 || structs.MessageType(data[0]) != structs.TxnRequestType {
 		return false
 	}
@@ -173,7 +173,12 @@ func txnRenames(data []byte) bool {
 	if err := structs.Decode(data[1:], &req); err != nil {
 		return false
 	}
+	// (start from the instances present before the command: the transaction may re-register one of
+	// them and delete it again, which the stores before and after do not show either)
 	seen := map[svcKey]string{}
+	for k, v := range before {
+		seen[k] = v
+	}
 	for _, op := range req.Ops {
 		if op.Service == nil || op.Service.Verb == api.ServiceDelete || op.Service.Verb == api.ServiceDeleteCAS {
 			continue
